@@ -12,12 +12,17 @@ EXTENDS FortranSem, Json, IOUtils
 
 Cases == JsonDeserialize(IOEnv.PV_CASES)
 
-VARIABLES cid, val, fm, T, phase, M, its, owner, cur, pos, done, ref, verdict
-vars == <<cid, val, fm, T, phase, M, its, owner, cur, pos, done, ref, verdict>>
+VARIABLES cid, val, fm, T, phase, M, its, owner, cur, pos, done, ref, verdict, li
+vars == <<cid, val, fm, T, phase, M, its, owner, cur, pos, done, ref, verdict, li>>
 
 C == Cases[cid]
 Thr(t, nm) == nm \o "@" \o ToString(t)
-PrivNames(c) == SeqSet(c.private) \cup SeqSet(c.firstprivate) \cup {c.loop.var}
+\* c.loops: the worksharing loops of the region in textual order (one for `parallel do`);
+\* each ends with the implicit barrier of `omp do`.  Private copies live for the whole
+\* region, so a private scalar carries its per-thread value from one loop to the next.
+LoopVars(c) == {c.loops[k].var : k \in DOMAIN c.loops}
+PrivNames(c) == SeqSet(c.private) \cup SeqSet(c.firstprivate) \cup LoopVars(c)
+CurLoop == C.loops[li]
 Live(c) == [i \in 1..Len(c.live) |-> c.live[i]]
 
 EnvOf(MM, c, t) ==
@@ -35,10 +40,10 @@ Init == /\ cid \in 1..Len(Cases)
         /\ T \in 1..Cases[cid].tmax
         /\ phase = "start"
         /\ M = <<>> /\ its = <<>> /\ owner = <<>> /\ cur = <<>> /\ pos = <<>> /\ done = {}
-        /\ ref = <<>> /\ verdict = "run"
+        /\ ref = <<>> /\ verdict = "run" /\ li = 1
 
 Stop(v) == /\ phase' = "end" /\ verdict' = v
-           /\ UNCHANGED <<cid, val, fm, T, M, its, owner, cur, pos, done, ref>>
+           /\ UNCHANGED <<cid, val, fm, T, M, its, owner, cur, pos, done, ref, li>>
 Fail(clause, w) ==
   /\ PrintT("VERDICT " \o ToJson([id |-> C.id, v |-> clause,
                                   w |-> [val |-> val, fm |-> fm, T |-> T, owner |-> owner, x |-> w]]))
@@ -62,20 +67,41 @@ Start ==
          Ms == ExecSeq(NewMachine(st0, c.subs, FALSE), c.serial, 1)
      IN IF Ms.sig \notin {"", "return"}
         THEN /\ PrintT("DISCARD " \o ToJson([id |-> c.id])) /\ Stop("discard")
-        ELSE LET Mp == ExecSeq(NewMachine(st0, c.subs, FALSE), c.pre, 1)
-                 lo == Eval(Mp, c.loop.lo)  hi == Eval(Mp, c.loop.hi)  sp == Eval(Mp, c.loop.st)
-             IN IF Mp.sig # "" \/ IsP(lo) \/ IsP(hi) \/ IsP(sp) THEN Fail("NoNewUndefined", "prefix")
-                ELSE IF sp.v = 0 \/ ~(PrivNames(c) \subseteq DOMAIN Mp.st) THEN Fail("NoNewUndefined", "loop header")
-                ELSE LET N == LoopTrip(lo.v, hi.v, sp.v) IN
-                     /\ its' = [k \in 1..N |-> lo.v + (k - 1) * sp.v]
-                     /\ owner' \in Owners(N, T, c.sched)
-                     /\ M' = [Mp EXCEPT !.st = WithPrivates(@, c, T)]
-                     /\ cur' = [t \in 1..T |-> 0]
-                     /\ pos' = [t \in 1..T |-> 0]
-                     /\ done' = {}
-                     /\ ref' = LiveOf(Ms, c.live)
-                     /\ phase' = "par"
-                     /\ UNCHANGED <<cid, val, fm, T, verdict>>
+        ELSE LET Mp == ExecSeq(NewMachine(st0, c.subs, FALSE), c.pre, 1) IN
+             IF Mp.sig # "" THEN Fail("NoNewUndefined", "prefix")
+             ELSE IF ~(PrivNames(c) \subseteq DOMAIN Mp.st) THEN Fail("NoNewUndefined", "loop header")
+             ELSE LET M0 == [Mp EXCEPT !.st = WithPrivates(@, c, T)]
+                      lp == c.loops[1]
+                      lo == Eval(M0, lp.lo)  hi == Eval(M0, lp.hi)  sp == Eval(M0, lp.st)
+                  IN IF IsP(lo) \/ IsP(hi) \/ IsP(sp) THEN Fail("NoNewUndefined", "loop header")
+                     ELSE IF sp.v = 0 THEN Fail("NoNewUndefined", "loop header")
+                     ELSE LET N == LoopTrip(lo.v, hi.v, sp.v) IN
+                          /\ its' = [k \in 1..N |-> lo.v + (k - 1) * sp.v]
+                          /\ owner' \in Owners(N, T, c.sched)
+                          /\ M' = M0
+                          /\ cur' = [t \in 1..T |-> 0]
+                          /\ pos' = [t \in 1..T |-> 0]
+                          /\ done' = {}
+                          /\ ref' = LiveOf(Ms, c.live)
+                          /\ phase' = "par"
+                          /\ UNCHANGED <<cid, val, fm, T, verdict, li>>
+
+\* implicit barrier at the end of a worksharing loop: the next loop of the region starts
+\* once every iteration is done; its bounds are evaluated on the shared store
+NextLoop ==
+  /\ phase = "par"
+  /\ done = DOMAIN its /\ \A t \in 1..T : cur[t] = 0
+  /\ li < Len(C.loops)
+  /\ LET lp == C.loops[li + 1]
+         lo == Eval(M, lp.lo)  hi == Eval(M, lp.hi)  sp == Eval(M, lp.st)
+     IN IF IsP(lo) \/ IsP(hi) \/ IsP(sp) THEN Fail("NoNewUndefined", "loop header")
+        ELSE IF sp.v = 0 THEN Fail("NoNewUndefined", "loop header")
+        ELSE LET N == LoopTrip(lo.v, hi.v, sp.v) IN
+             /\ its' = [k \in 1..N |-> lo.v + (k - 1) * sp.v]
+             /\ owner' \in Owners(N, T, C.sched)
+             /\ li' = li + 1
+             /\ done' = {}
+             /\ UNCHANGED <<cid, val, fm, T, phase, M, cur, pos, ref, verdict>>
 
 Mine(t) == {k \in DOMAIN its : owner[k] = t /\ k \notin done}
 
@@ -85,33 +111,34 @@ StepThread(t) ==
      IF cur[t] = 0
      THEN /\ Mine(t) # {}
           /\ LET k == CHOOSE x \in Mine(t) : \A y \in Mine(t) : x <= y
-                 lv == Thr(t, c.loop.var)
+                 lv == Thr(t, CurLoop.var)
              IN /\ cur' = [cur EXCEPT ![t] = k]
                 /\ pos' = [pos EXCEPT ![t] = 1]
                 /\ M' = [M EXCEPT !.st = StoreAt(@, lv, 1, VI(its[k]))]
-                /\ UNCHANGED <<cid, val, fm, T, phase, its, owner, done, ref, verdict>>
-     ELSE IF pos[t] > Len(c.loop.body)
+                /\ UNCHANGED <<cid, val, fm, T, phase, its, owner, done, ref, verdict, li>>
+     ELSE IF pos[t] > Len(CurLoop.body)
      THEN /\ done' = done \cup {cur[t]}
           /\ cur' = [cur EXCEPT ![t] = 0]
-          /\ UNCHANGED <<cid, val, fm, T, phase, M, its, owner, pos, ref, verdict>>
+          /\ UNCHANGED <<cid, val, fm, T, phase, M, its, owner, pos, ref, verdict, li>>
      ELSE LET Mt == [M EXCEPT !.env = EnvOf(M, c, t)]
-              M1 == ExecStmt(Mt, c.loop.body[pos[t]])
+              M1 == ExecStmt(Mt, CurLoop.body[pos[t]])
           IN IF M1.sig # ""
              THEN Fail(IF M1.sig = "ub" THEN "NoUndefinedRead" ELSE "NoJumpOutOfLoop",
                        [thread |-> t, iteration |-> its[cur[t]], stmt |-> pos[t]])
              ELSE /\ M' = [M1 EXCEPT !.env = <<>>]
                   /\ pos' = [pos EXCEPT ![t] = @ + 1]
-                  /\ UNCHANGED <<cid, val, fm, T, phase, its, owner, cur, done, ref, verdict>>
+                  /\ UNCHANGED <<cid, val, fm, T, phase, its, owner, cur, done, ref, verdict, li>>
 
 Finish ==
   /\ phase = "par"
   /\ done = DOMAIN its /\ \A t \in 1..T : cur[t] = 0
+  /\ li = Len(C.loops)
   /\ LET c == C
          Mf == ExecSeq(M, c.post, 1)
      IN IF Mf.sig \notin {"", "return"} THEN Fail("NoNewUndefined", "suffix")
         ELSE LET diff == LiveDiff(ref, Mf, c.live) IN
              IF diff # {} THEN Fail("SameShared", diff) ELSE Stop("ok")
 
-Next == Start \/ Finish \/ \E t \in 1..T : StepThread(t)
+Next == Start \/ Finish \/ NextLoop \/ \E t \in 1..T : StepThread(t)
 Spec == Init /\ [][Next]_vars
 ===============================================================================
